@@ -1,6 +1,6 @@
 (** C07: correspondence (model of the raw connector vs the implementation, every id pair) and
     oracle (implementation vs the defining feature-pair sum, raw and dual). *)
-From Vib Require Import Model.Base Model.Scorer.
+From Vib Require Import Model.Base Model.Scorer Model.Dual.
 Local Open Scope Z_scope.
 
 Record c07case := {
@@ -36,11 +36,27 @@ Definition in_i16 (z : Z) : bool := (-32768 <=? z) && (z <=? 32767).
 
 (** correspondence: the model of the raw connector (interning, trie, double array, padded
     lanes, accumulate) gives the implementation's cost for every id pair *)
-Definition c07_corr (c : c07case) : bool :=
+Definition c07_corr_raw (c : c07case) : bool :=
   match build_raw (N.to_nat 4000) (c7_right c) (c7_left c) (c7_cost c), c7_raw c with
   | Some rc, Ok m => zmat_eqb (matrix_of (raw_cost rc) (S (length (c7_right c))) (S (length (c7_left c)))) m
   | None, _ => false
   | Some _, _ => false
+  end.
+
+(** the model of the dual connector, evaluated with one fixed split of the template positions
+    (the implementation's own split depends on hash order; c07_dual_is_defining_sum holds for
+    every split): when its pre-summed part fits 16 bits it gives the implementation's dual costs *)
+Fixpoint alt_mask (k : nat) (b : bool) : list bool := match k with O => [] | S k' => b :: alt_mask k' (negb b) end.
+Definition c07_corr_dual (c : c07case) : bool :=
+  let k := fold_right Nat.max 0%nat (map (@length _) (c7_right c ++ c7_left c)) in
+  let nr := S (length (c7_right c)) in let nl := S (length (c7_left c)) in
+  match build_dual (N.to_nat 4000) (alt_mask k true) (c7_right c) (c7_left c) (c7_cost c), c7_dual c with
+  | Some dc, Ok m =>
+      if forallb (fun r => forallb (fun l => in_i16 (matrix_part dc r l)) (ids nl)) (ids nr)
+      then zmat_eqb (matrix_of (dual_cost dc) nr nl) m
+      else true
+  | None, _ => false
+  | Some _, _ => true
   end.
 
 (** partial sums over any subset of positions fit 16 bits when the sum of absolute values does *)
@@ -53,6 +69,8 @@ Definition abs_sum (c : c07case) (r l : N) : Z :=
                    end) (seq 0 k)).
 Definition presum_fits (c : c07case) : bool :=
   forallb (fun r => forallb (fun l => in_i16 (abs_sum c r l)) (ids (S (length (c7_left c))))) (ids (S (length (c7_right c)))).
+
+Definition c07_corr (c : c07case) : bool := c07_corr_raw c && (star_listed c || negb (presum_fits c) || c07_corr_dual c).
 
 Definition c07_oracle_gen (c : c07case) : bool :=
   match c7_raw c with
